@@ -41,7 +41,13 @@ macro_rules! trs3 {
                 let pattern = (it % 8) as usize;
                 let (qv, lq) = unit_quat::<$S>(&mut rng, it / 8);
                 let q = <$Q>::from_array(qv);
-                let s = <$V3>::new(scale_val(&mut rng, pattern & 1 != 0) as $S, scale_val(&mut rng, pattern & 2 != 0) as $S, scale_val(&mut rng, pattern & 4 != 0) as $S);
+                let s = match (it / 8) % 5 {
+                    // magnitudes within 1e-4 of 1 (a "rigid" shortcut must not swallow them) and nearly uniform scales whose
+                    // magnitudes differ by a few ulps .. 1e-4 relative (a "uniform scale" shortcut must not either)
+                    3 => { let d = |r: &mut Rng| 1.0 + 10f64.powf(-r.range(4.0, 7.5)) * if r.bool() { 1.0 } else { -1.0 }; let sg = |b: bool| if b { -1.0 } else { 1.0 }; <$V3>::new((d(&mut rng) * sg(pattern & 1 != 0)) as $S, (d(&mut rng) * sg(pattern & 2 != 0)) as $S, (d(&mut rng) * sg(pattern & 4 != 0)) as $S) }
+                    4 => { let base = 10f64.powf(rng.range(-3.0, 3.0)); let d = |r: &mut Rng| 1.0 + 10f64.powf(-r.range(4.0, 8.0)) * [0.0, 1.0, -1.0][r.idx(3)]; let sg = |b: bool| if b { -1.0 } else { 1.0 }; <$V3>::new((base * d(&mut rng) * sg(pattern & 1 != 0)) as $S, (base * d(&mut rng) * sg(pattern & 2 != 0)) as $S, (base * d(&mut rng) * sg(pattern & 4 != 0)) as $S) }
+                    _ => <$V3>::new(scale_val(&mut rng, pattern & 1 != 0) as $S, scale_val(&mut rng, pattern & 2 != 0) as $S, scale_val(&mut rng, pattern & 4 != 0) as $S),
+                };
                 // "all finite translations": every 7th one reaches up to the largest finite magnitudes
                 let tmax = if it % 7 == 3 { <$S>::MAX_EXP as f64 - 2.0 } else { 10.0 };
                 let t = <$V3>::new(rng.logmag(-6.0, tmax) as $S, rng.logmag(-6.0, tmax) as $S, if it % 5 == 0 { 0.0 } else { rng.logmag(-6.0, tmax) as $S });
